@@ -9,10 +9,11 @@
 (* indices, so that TLC's workers share the file.  The driver checks that  *)
 (* the number of distinct states equals the number of records.             *)
 (***************************************************************************)
-EXTENDS GenProps, Json, IOUtils
+EXTENDS TraceConf, Json, IOUtils
 
 CONSTANTS W,      \* number of chains
-          PROP    \* property id, e.g. "C02"
+          PROP    \* property id, e.g. "C02" ("CONF": conformance with the operational model)
+\* (MacroSepOn, declared by SasLexer: the feature configuration of the build that was traced)
 
 Recs == ndJsonDeserialize(IOEnv.TRACE)
 NRec == Len(Recs)
@@ -50,7 +51,8 @@ Clauses(r) ==
     [] PROP = "C09" ->
          << <<"C09_bounds", C09_bounds(r)>>, <<"C09_last_token", C09_last_token(r)>>,
             <<"C09_order", C09_order(r)>>, <<"C09_err_has_tok", C09_err_has_tok(r)>>,
-            <<"C09_tok_has_err", C09_tok_has_err(r)>> >>
+            <<"C09_tok_has_err", C09_tok_has_err(r)>>, <<"C09_multiplicity", C09_multiplicity(r)>>,
+            <<"C09_rollback", C09_rollback(r)>> >>
     [] PROP = "C10" ->
          << <<"C10_strexpr", C10_strexpr(r)>>, <<"C10_strexpr_open", C10_strexpr_open(r)>>,
             <<"C10_datalines", C10_datalines(r)>>, <<"C10_label", C10_label(r)>>,
@@ -71,6 +73,7 @@ Clauses(r) ==
          << <<"C12_no_errors", C12_no_errors(r)>>, <<"C12_config", C12_config(r)>> >>
     [] PROP = "C13" -> << <<"C13_expect", C13_expect(r)>> >>
     [] PROP = "C14" -> << <<"C14_diag", C14_diag(r)>> >>
+    [] PROP = "CONF" -> << <<"CONF_drift", CONF_drift(r)>> >>
     [] OTHER -> <<>>
 
 \* relational properties: the record is a tuple of results
@@ -89,19 +92,19 @@ PairClauses(p) ==
     [] OTHER -> <<>>
 IsPair == PROP \in {"C15", "C16", "C17", "C18", "C19"}
 
-Emit(id, cl) ==
+EmitVerdict(id, cl) ==
   cl[2] = {} \/ PrintT(<<"VERDICT", id, cl[1], Cardinality(cl[2]), CHOOSE x \in cl[2] : TRUE>>)
 
 ReportPair(p) ==
   IF ~(CertOK(p.a) /\ CertOK(p.b) /\ (PROP = "C15" => CertOK(p.ab))) THEN PrintT(<<"CERTFAIL", p.id>>)
   ELSE IF PROP \in {"C16", "C17", "C18"} /\ ~Ok2(p) THEN PrintT(<<"SKIPPED", p.id>>)
-  ELSE LET cls == PairClauses(p) IN \A i \in 1..Len(cls) : Emit(p.id, cls[i])
+  ELSE LET cls == PairClauses(p) IN \A i \in 1..Len(cls) : EmitVerdict(p.id, cls[i])
 
 Report(r) ==
   IF IsPair THEN ReportPair(r)
   ELSE IF ~CertOK(r) THEN PrintT(<<"CERTFAIL", r.id>>)
   ELSE IF PROP # "C01" /\ (~r.ok \/ r.budget_exceeded) THEN PrintT(<<"SKIPPED", r.id>>)
-  ELSE LET cls == Clauses(r) IN \A i \in 1..Len(cls) : Emit(r.id, cls[i])
+  ELSE LET cls == Clauses(r) IN \A i \in 1..Len(cls) : EmitVerdict(r.id, cls[i])
 
 \* always TRUE; evaluated once per distinct state, i.e. once per record
 Monitor == Report(Recs[k])
